@@ -381,6 +381,8 @@ class AbstractHasAxes(AbstractHasMetadata):
 
         elif type(axis) is int:
             idx = axis
+            if idx < 0:
+                idx += len(self.axes) # numpy-like negative position
 
         else:
             raise TypeError("axis must be int or str, got:"+repr(axis))
